@@ -143,7 +143,7 @@ structure AlgRes (K C : Type) where
   Fn : List K
   Xi : List K
   Phi : List (List C)
-deriving Inhabited
+deriving Inhabited, DecidableEq, Repr
 
 /-- `MsPoserResult` -/
 structure PoserRes (K C : Type) where
@@ -152,6 +152,7 @@ structure PoserRes (K C : Type) where
   Fn_cov : List K
   Xi : List K
   Xi_cov : List K
+deriving DecidableEq, Repr
 
 /-- `alg_groups.setdefault(key, []).append(a)` on an insertion-ordered dictionary -/
 def groupAppend {α : Type} (g : List (String × List α)) (key : String) (a : α) : List (String × List α) :=
